@@ -138,7 +138,25 @@ def r2(ctx, fs):
     c_d = env2.local_role('c', lambda n, i: isinstance(i, tuple) and i[0] == 'call' and i[1] == 'smt::clause::new_clause', optional=True)
     l0_d = env2.local_role('l0', lambda n, i: i == ('[]', 'lits', ('num', 0)), optional=True)
     effs = [canon(s, env2, subst=False) for s in walk(f.body) if s.get('k') in ('CXXMemberCallExpr', 'CallExpr') and not s.get('as')]
+    # the second watch of a learnt clause must be (one of) its highest-level false literal(s): sorted by DESCENDING level from position 1 on, before the
+    # vector is handed to clause::new_clause (the generic lambda's parameters are dependent: the comparison is read as names)
+    desc = False
+    for n in f.nodes():
+        if n.get('callee_name') == 'std::sort' and not n.get('as'):
+            lam = [m for m in walk(n) if m.get('k') == 'LambdaExpr']
+            if lam and len(lam[0].get('params') or ()) == 2:
+                pa, pb = lam[0]['params'][0].get('name'), lam[0]['params'][1].get('name')
+                rets = [m for m in walk(lam[0]) if m.get('k') == 'ReturnStmt' and m.get('c')]
+                if len(rets) == 1:
+                    t = show(canon(rets[0]['c'][0], None))
+                    lv = lambda x: '([] sat_core::level'
+                    # canonical `<`: level[b] < level[a]  (i.e. a before b when a is deeper)
+                    ia, ib = t.find(' %s)' % pa), t.find(' %s)' % pb)
+                    desc = t.startswith('(< ') and t.count('sat_core::level') == 2 and 0 <= ib < ia
+                    first_arg = show(canon(n['c'][1], env2, subst=False)) if len(n.get('c') or ()) > 1 else ''
+                    desc = desc and 'next' in first_arg
     facts = {
+        'literals from position 1 on sorted by descending decision level (second watch = deepest false literal)': desc,
         'clause created through clause::new_clause': c_d is not None,
         'first literal saved before the vector is moved': l0_d is not None,
         'asserting literal enqueued with the clause as reason': ('mcall', SC + 'enqueue', 'this', 'l0', 'c') in effs,
